@@ -28,7 +28,12 @@ static void check_valid(const Scene &S, const PolyLine &r) {
 }
 extern "C" void harness(void) {
     Scene S; S.aAlive = true; S.bAlive = false;
-    S.a = (VBox){20, 20, 60, 60}; S.b = (VBox){70, 10, 90, 70};
+#ifdef A_ASIDE
+    S.a = (VBox){200, 100, 240, 140};      // A is far aside (nothing projects onto the straight line): the first route may be one single visibility edge
+#else
+    S.a = (VBox){20, 20, 60, 60};
+#endif
+    S.b = (VBox){70, 10, 90, 70};
     S.sx = verif_coord(0, 10); S.sy = verif_coord(30, 50); S.dx = verif_coord(100, 110); S.dy = verif_coord(30, 50);
     Router *router = new Router(OrthogonalRouting);
     router->setRoutingParameter(segmentPenalty, PEN);
